@@ -345,6 +345,7 @@ func runC03(c *Ctx) {
 			}
 		}
 	}
+	spHistories(c, g)
 	randomCombinations(c, g, 400, false)
 }
 
